@@ -86,7 +86,11 @@ pub fn c01_ops() -> Vec<Op> {
             if !c01::features(&f, &x).is_empty() {
                 continue;
             }
+            let x2 = x.clone();
             v.push(verdict(format!("round trip[{}] {}", f.name, x.show()), move || c01::case(&f, &x)));
+            if !x2.term.kids.is_empty() && x2.punct.is_none() {
+                v.push(verdict(format!("round trip through a format instance overwritten in place[{}] {}", f.name, x2.show()), move || c01::case(&fmts::in_slot(&f), &x2)));
+            }
         }
     }
     with_context(v)
@@ -106,7 +110,9 @@ pub fn c02_ops() -> Vec<Op> {
                 continue;
             }
             let x2 = x.clone();
+            let x3 = x.clone();
             v.push(verdict(format!("lexical round trip[{}] {x:?}", f.name), move || c02::case(&f, &x)));
+            v.push(verdict(format!("lexical round trip through a format instance overwritten in place[{}] {x3:?}", f.name), move || c02::case(&fmts::in_slot(&f), &x3)));
             if !matches!(x2, LN::Term(_)) {
                 continue;
             }
@@ -143,7 +149,11 @@ pub fn c03_ops() -> Vec<Op> {
                 continue;
             }
             let expect = x.canon();
+            let (s2, e2, plain) = (s.clone(), expect.clone(), x.punct.is_none() && !x.term.kids.is_empty());
             v.push(verdict(format!("pipelines agree[{}] {s:?}", f.name), move || c03::case(&f, &s, Some(&expect))));
+            if plain {
+                v.push(verdict(format!("pipelines agree through format instances overwritten in place[{}] {s2:?}", f.name), move || c03::case(&fmts::in_slot(&f), &s2, Some(&e2))));
+            }
         }
     }
     with_context(v)
@@ -290,7 +300,11 @@ pub fn c09_ops() -> Vec<Op> {
                 let s = emit::join_with(&toks, &vec![sp; toks.len() + 1]);
                 for p in [c10::Pipe::Enum, c10::Pipe::LexFold] {
                     let (s2, e2) = (s.clone(), expect.clone());
+                    let (s3, e3) = (s.clone(), expect.clone());
                     v.push(verdict(format!("spacing[{}] {p:?} {s:?}", f.name), move || c09::check(&f, p, &s2, &e2)));
+                    if sp.is_empty() {
+                        v.push(verdict(format!("spacing through format instances overwritten in place[{}] {p:?} {s:?}", f.name), move || c09::check(&fmts::in_slot(&f), p, &s3, &e3)));
+                    }
                 }
             }
         }
@@ -325,7 +339,9 @@ pub fn c10_ops() -> Vec<Op> {
         for (text, expect) in cases {
             for pipe in [c10::Pipe::Enum, c10::Pipe::LexFold] {
                 let (t2, e2) = (text.clone(), expect.clone());
+                let (t3, e3) = (text.clone(), expect.clone());
                 v.push(verdict(format!("meaning[{}] {pipe:?} {text:?}", f.name), move || c10::case(&f, pipe, &t2, Some(&e2))));
+                v.push(verdict(format!("meaning through format instances overwritten in place[{}] {pipe:?} {text:?}", f.name), move || c10::case(&fmts::in_slot(&f), pipe, &t3, Some(&e3))));
             }
         }
     }
